@@ -124,7 +124,7 @@ PROPS = {
                      "algorithm; IpAddress round trip; registration constants as a contract on data",
         "trusted_base": ["datetime.timedelta, ipaddress.ip_address, int.to_bytes/from_bytes (assumed contracts, stated in stdlib.py)",
                          "x690 Integer/X690Type constructors executed from the x690 source",
-                         "x690 Integer.encode_raw/decode_raw round trip: bounded stand-in (enumeration), not proved"],
+                         "x690 Integer.encode_raw/decode_raw verified from the x690 source for |v| < 2^72 (loops unrolled to the operand width); wider integers are outside every SNMP type and stay unverified"],
     },
     "C18": {
         "standins": ["config"],
